@@ -28,6 +28,8 @@ impl V {
         match self {
             V::I(i) => format!("{}", i),
             V::F(i) => format!("{}.0", i),
+            // tags >= 1000 are strings that *look like* the integer tag-1000 ('1' vs 1)
+            V::S(n) if *n >= 1000 => format!("'{}'", n - 1000),
             V::S(n) => format!("'t{}'", n),
             V::N => "null".into(),
         }
@@ -36,6 +38,7 @@ impl V {
         match self {
             V::I(i) => PropertyValue::Integer(*i),
             V::F(i) => PropertyValue::Float(*i as f64),
+            V::S(n) if *n >= 1000 => PropertyValue::String(format!("{}", n - 1000)),
             V::S(n) => PropertyValue::String(format!("t{}", n)),
             V::N => PropertyValue::Null,
         }
@@ -59,10 +62,15 @@ enum Op {
     Cons(u8, u8),
     Create(Vec<u8>, Vec<(u8, V)>),
     Set(usize, u8, V),
+    /// the same write spelled `SET n += {key: value}` (the whole-entity path of the SET operator)
+    SetMap(usize, u8, V),
     Remove(usize, u8),
     Delete(usize),
     AddL(usize, u8),
     RemL(usize, u8),
+    /// a statement that must leave constraints alone: 0 = DROP INDEX ON :L(k), 1 = CREATE INDEX ON :L(k),
+    /// 2 = DROP INDEX ON :M(k), 3 = DROP INDEX ON :L(j)
+    Noise(u8),
 }
 
 #[derive(Clone, Debug)]
@@ -100,10 +108,12 @@ fn op_txt(op: &Op) -> String {
         Op::Cons(l, k) => format!("c:{}.{}", l, k),
         Op::Create(ls, ps) => format!("n:{}:{}", labels_txt(ls), props_txt(ps)),
         Op::Set(h, k, v) => format!("s:{}.{}.{}", h, k, v.txt()),
+        Op::SetMap(h, k, v) => format!("s:{}.{}.{}", h, k, v.txt()),
         Op::Remove(h, k) => format!("r:{}.{}", h, k),
         Op::Delete(h) => format!("d:{}", h),
         Op::AddL(h, l) => format!("a:{}.{}", h, l),
         Op::RemL(h, l) => format!("u:{}.{}", h, l),
+        Op::Noise(t) => format!("z:{}", t),
     }
 }
 fn op_kind(op: &Op) -> &'static str {
@@ -111,10 +121,12 @@ fn op_kind(op: &Op) -> &'static str {
         Op::Cons(..) => "constraint",
         Op::Create(..) => "create",
         Op::Set(..) => "set",
+        Op::SetMap(..) => "set-map",
         Op::Remove(..) => "remove",
         Op::Delete(..) => "delete",
         Op::AddL(..) => "addlabel",
         Op::RemL(..) => "removelabel",
+        Op::Noise(..) => "index-ddl",
     }
 }
 fn render(c: &Case) -> (String, String) {
@@ -174,6 +186,7 @@ fn parse_op(s: &str) -> Option<Op> {
             let d = dots(a);
             Some(Op::RemL(d.first()?.parse().ok()?, d.get(1)?.parse().ok()?))
         }
+        ["z", t] => Some(Op::Noise(t.parse().ok()?)),
         _ => None,
     }
 }
@@ -253,9 +266,10 @@ fn pv_txt(p: &PropertyValue) -> Option<String> {
         PropertyValue::Null => None,
         PropertyValue::Integer(i) => Some(format!("i{}", i)),
         PropertyValue::Float(f) if f.fract() == 0.0 && f.abs() < 1e15 => Some(format!("f{}", *f as i64)),
-        PropertyValue::String(s) => match s.strip_prefix('t').and_then(|x| x.parse::<u32>().ok()) {
-            Some(n) => Some(format!("s{}", n)),
-            None => Some(format!("?{:?}", s)),
+        PropertyValue::String(s) => match (s.parse::<u32>().ok(), s.strip_prefix('t').and_then(|x| x.parse::<u32>().ok())) {
+            (Some(i), _) => Some(format!("s{}", 1000 + i)),
+            (_, Some(n)) => Some(format!("s{}", n)),
+            _ => Some(format!("?{:?}", s)),
         },
         other => Some(format!("?{:?}", other)),
     }
@@ -349,15 +363,23 @@ fn run_real(c: &Case) -> Vec<Obs> {
                 q
             }
             Op::Set(h, k, v) => format!("MATCH (n {{h: {}}}) SET n.{} = {}", h, KEYS[*k as usize], v.cypher()),
+            Op::SetMap(h, k, v) => format!("MATCH (n {{h: {}}}) SET n += {{{}: {}}}", h, KEYS[*k as usize], v.cypher()),
             Op::Remove(h, k) => format!("MATCH (n {{h: {}}}) REMOVE n.{}", h, KEYS[*k as usize]),
             Op::Delete(h) => format!("MATCH (n {{h: {}}}) DELETE n", h),
             Op::AddL(h, l) => format!("MATCH (n {{h: {}}}) SET n:{}", h, LABELS[*l as usize]),
             Op::RemL(h, l) => format!("MATCH (n {{h: {}}}) REMOVE n:{}", h, LABELS[*l as usize]),
+            Op::Noise(0) => "DROP INDEX ON :L(k)".to_string(),
+            Op::Noise(1) => "CREATE INDEX ON :L(k)".to_string(),
+            Op::Noise(2) => "DROP INDEX ON :M(k)".to_string(),
+            Op::Noise(_) => "DROP INDEX ON :L(j)".to_string(),
         };
         let r = std::panic::catch_unwind(std::panic::AssertUnwindSafe(|| {
             eng.execute_mut(&q, &mut store, "default").map(|_| ()).map_err(|e| e.to_string())
         }));
         let ok = match r {
+            // index DDL may legitimately fail (DROP INDEX of an index that does not exist); the
+            // property is about what it does *not* do to the constraints, which the observation shows
+            Ok(_) if matches!(op, Op::Noise(_)) => "1".to_string(),
             Ok(Ok(())) => "1".to_string(),
             Ok(Err(e)) => {
                 if e.contains("onstraint") {
@@ -410,6 +432,7 @@ fn exhaustive(
     max_handles: usize,
     letters: &dyn Fn(usize) -> Vec<Op>,
     pop: &[Seed],
+    prefix: &[Op],
     out: &mut Vec<Case>,
 ) {
     fn go(
@@ -419,22 +442,24 @@ fn exhaustive(
         max_handles: usize,
         letters: &dyn Fn(usize) -> Vec<Op>,
         pop: &[Seed],
+        plen: usize,
         out: &mut Vec<Case>,
     ) {
-        if !cur.is_empty() {
+        if cur.len() > plen {
             out.push(Case { pop: pop.to_vec(), ops: cur.clone() });
         }
-        if cur.len() == max_len {
+        if cur.len() == max_len + plen {
             return;
         }
         for op in letters(created.min(max_handles)) {
             let c2 = created + matches!(op, Op::Create(..)) as usize;
             cur.push(op);
-            go(cur, c2, max_len, max_handles, letters, pop, out);
+            go(cur, c2, max_len, max_handles, letters, pop, plen, out);
             cur.pop();
         }
     }
-    go(&mut vec![], pop.len(), max_len, max_handles, letters, pop, out);
+    let created = pop.len() + prefix.iter().filter(|o| matches!(o, Op::Create(..))).count();
+    go(&mut prefix.to_vec(), created, max_len, max_handles, letters, pop, prefix.len(), out);
 }
 
 fn letters_a(handles: usize) -> Vec<Op> {
@@ -467,6 +492,44 @@ fn letters_b(handles: usize) -> Vec<Op> {
     for h in 0..handles {
         a.push(Op::Delete(h));
         a.push(Op::Set(h, 1, V::I(2)));
+        a.push(Op::Set(h, 0, V::I(2)));
+        a.push(Op::Remove(h, 1));
+    }
+    a
+}
+
+/// two constrained labels on one key, nodes carrying one or both of them
+fn letters_d(handles: usize) -> Vec<Op> {
+    let mut a = vec![
+        Op::Create(vec![0, 1], vec![(0, V::I(1))]),
+        Op::Create(vec![0], vec![(0, V::I(1))]),
+        Op::Create(vec![1], vec![(0, V::I(1))]),
+        Op::Create(vec![0, 1], vec![(0, V::I(2))]),
+    ];
+    for h in 0..handles {
+        a.push(Op::Set(h, 0, V::I(1)));
+        a.push(Op::Set(h, 0, V::I(2)));
+        a.push(Op::Remove(h, 0));
+        a.push(Op::AddL(h, 0));
+        a.push(Op::AddL(h, 1));
+        a.push(Op::RemL(h, 0));
+        a.push(Op::RemL(h, 1));
+        a.push(Op::Delete(h));
+    }
+    a
+}
+
+/// values of different types that print alike (1, 1.0, '1'), and index DDL on the constrained pair
+fn letters_e(handles: usize) -> Vec<Op> {
+    let mut a = vec![Op::Noise(0), Op::Noise(1)];
+    for v in [V::I(1), V::S(1001), V::F(1)] {
+        a.push(Op::Create(vec![0], vec![(0, v)]));
+    }
+    for h in 0..handles {
+        a.push(Op::Set(h, 0, V::S(1001)));
+        a.push(Op::Set(h, 0, V::I(1)));
+        a.push(Op::Remove(h, 0));
+        a.push(Op::Delete(h));
     }
     a
 }
@@ -485,7 +548,7 @@ fn letters_c(handles: usize) -> Vec<Op> {
 }
 
 fn random_case(rng: &mut Rng) -> Case {
-    let vals = [V::I(1), V::I(2), V::F(1), V::F(2), V::S(0), V::N, V::I(1), V::I(2)];
+    let vals = [V::I(1), V::I(2), V::F(1), V::F(2), V::S(0), V::S(1001), V::S(1002), V::N, V::I(1), V::I(2)];
     let label_sets: [&[u8]; 5] = [&[0], &[0], &[1], &[0, 1], &[]];
     let mut pop = vec![];
     for _ in 0..rng.usize(4) {
@@ -506,11 +569,11 @@ fn random_case(rng: &mut Rng) -> Case {
     // history runs under them
     let early = rng.chance(3, 4);
     for i in 0..n {
-        let r = if early && i < 2 { 0 } else { rng.usize(20) };
+        let r = if early && i < 2 { 0 } else { rng.usize(21) };
         let h = if next == 0 { 0 } else { rng.usize(next) };
         let k = rng.usize(2) as u8;
         let op = match r {
-            0 | 1 => Op::Cons(rng.usize(2) as u8 * (rng.chance(1, 6) as u8), if early && i < 2 { i as u8 } else { k }),
+            0 | 1 => Op::Cons(rng.chance(1, 4) as u8, if early && i < 2 { i as u8 } else { k }),
             2..=7 => {
                 let labels = rng.pick(&label_sets).to_vec();
                 let mut props = vec![];
@@ -525,11 +588,19 @@ fn random_case(rng: &mut Rng) -> Case {
                 next += 1;
                 Op::Create(labels, props)
             }
-            8..=12 => Op::Set(h, k, rng.pick(&vals).clone()),
+            8..=12 => {
+                let v = rng.pick(&vals).clone();
+                if v != V::N && rng.chance(1, 4) {
+                    Op::SetMap(h, k, v)
+                } else {
+                    Op::Set(h, k, v)
+                }
+            }
             13 | 14 => Op::Remove(h, k),
             15 | 16 => Op::Delete(h),
-            17 | 18 => Op::AddL(h, rng.usize(2) as u8 * (rng.chance(1, 4) as u8)),
-            _ => Op::RemL(h, rng.usize(2) as u8 * (rng.chance(1, 4) as u8)),
+            17 | 18 => Op::AddL(h, rng.chance(1, 3) as u8),
+            19 => Op::RemL(h, rng.chance(1, 3) as u8),
+            _ => Op::Noise(rng.usize(4) as u8),
         };
         ops.push(op);
     }
@@ -575,9 +646,13 @@ fn main() {
 
     if args.replay.is_none() {
         // 2. exhaustive small scopes
-        let (la, lb, lc) = if args.thorough() { (4, 5, 4) } else { (4, 4, 3) };
-        exhaustive(la, 2, &letters_a, &[], &mut cases);
-        exhaustive(lb, 2, &letters_b, &[], &mut cases);
+        let (la, lb, lc) = if args.thorough() { (4, 4, 4) } else { (4, 4, 3) };
+        let (ld, le) = if args.thorough() { (4, 4) } else { (3, 4) };
+        exhaustive(la, 2, &letters_a, &[], &[], &mut cases);
+        exhaustive(lb, 2, &letters_b, &[], &[], &mut cases);
+        // the constraints are declared up front so that short histories run under them
+        exhaustive(ld, 2, &letters_d, &[], &[Op::Cons(0, 0), Op::Cons(1, 0)], &mut cases);
+        exhaustive(le, 2, &letters_e, &[], &[Op::Cons(0, 0)], &mut cases);
         let seeds = [
             Seed { labels: vec![0], props: vec![(0, V::I(1))], stub: true },
             Seed { labels: vec![0], props: vec![(0, V::I(1))], stub: false },
@@ -585,18 +660,19 @@ fn main() {
             Seed { labels: vec![1], props: vec![(0, V::I(1))], stub: true },
         ];
         for a in &seeds {
-            exhaustive(lc, 2, &letters_c, &[a.clone()], &mut cases);
+            exhaustive(lc, 2, &letters_c, &[a.clone()], &[], &mut cases);
             for b in &seeds {
-                exhaustive(lc, 2, &letters_c, &[a.clone(), b.clone()], &mut cases);
+                exhaustive(lc, 2, &letters_c, &[a.clone(), b.clone()], &[], &mut cases);
             }
         }
         rep.exhaustive = true;
         rep.exhaustive_note = format!(
             "all histories (handles addressed only once handed out) of length <= {} over one constrained key, values 1 / 1.0 / null, \
-             labels L/M, 2 handles (19 letters); of length <= {} over two constrained keys with multi-property CREATE (11 letters); \
+             labels L/M, 2 handles (19 letters); of length <= {} over two constrained keys with multi-property CREATE (15 letters); \
              of length <= {} over every 1- and 2-node pre-loaded population from 4 seeds (row / column-only) (13 letters); \
-             plus PRNG histories (not exhaustive)",
-            la, lb, lc
+             of length <= {} after declaring constraints on two labels, with nodes carrying one or both (20 letters); of length <= {} after \
+             declaring the constraint, over values 1 / 1.0 / '1' with DROP INDEX / CREATE INDEX on the constrained pair (13 letters); plus PRNG histories (not exhaustive)",
+            la, lb, lc, ld, le
         );
         // 3. random histories
         // `fork`: Rng::new(s) and Rng::new(s+1) are the same SplitMix stream shifted by one draw
